@@ -8,6 +8,9 @@ tie:     correspondence of create_DG on generated store/load kernels (all addres
 search:  the generator's own symbolic bookkeeping (a third implementation): store->load edge iff same location;
          after an access post-indexed by a register (`ld1 {v5.2d}, [x1], x2`, `st1 {v3.4s}, [x4], x5`) its base is unknown:
          no store->load dependency through it is reported, none is demanded (Props/C06 no_edge_after_register_post_index).
+         symbolic displacements (`foo(%rip)`, `[x2, #:lo12:foo]`): edge only for the identical symbol with equal tracked registers,
+         never a crash (no_edge_symbol_vs_number, no_edge_different_symbols); a post-/pre-indexed FIRST store: edges according to the
+         architectural address (post_indexed_store_edge, store_load_edge_sound runs the producer's changesPost).  notes/C06.md
 """
 from harness import core, dgcheck
 from harness.props.c03 import replay_common
@@ -27,6 +30,20 @@ def run(ctx):
         second_store = bool(meta.get("second_store"))
         edge = im.edges().get((str(store.line_number), str(load.line_number)))
         ctx.count("expected_same" if meta.get("same_location") else "expected_diff")
+        if meta.get("symbolic"):
+            ctx.count("symbolic_displacement")
+        if meta.get("store_writeback"):
+            ctx.count("store_with_writeback")
+        if meta.get("register_edge_to_load"):
+            # the store wrote its base register back and the load reads that very register: the two lines are connected
+            # through the register whatever the addresses are -- the graph cannot show the memory dependency on its own
+            ctx.count("not_judged_register_edge_store_to_load")
+            continue
+        if meta.get("wb_base_rewritten") and meta.get("same_location"):
+            # the written-back base is overwritten before the load: the implementation ends its scan there (memStop);
+            # no dependency is demanded (none may be reported for different locations, judged below)
+            ctx.count("not_demanded_writeback_base_rewritten")
+            continue
         if meta.get("same_location") and not second_store:
             distinct.add(repr((im.isa, im.lines)))
             if edge is None:
